@@ -391,6 +391,28 @@ pub enum Op {
 	/// Tree reader lock / unlock (C11): selector over live roots, slot number
 	LockTree(u8, u16),
 	UnlockTree,
+	/// A transaction that must be rejected (C08): valid items with one invalid operation
+	/// inserted at position `pos` (monotone selector).
+	Poison(Vec<Item>, BadOp, u16),
+	/// Put the database into the background-error state (as a failing worker does).
+	BgError,
+}
+
+/// Invalid operations of C08; `u8` selects among the columns the category applies to.
+#[derive(Clone, Debug, Serialize, Deserialize, PartialEq, Eq, Hash)]
+pub enum BadOp {
+	/// Reference on a hash / btree column without reference counting
+	RefOnPlain(u8, u16),
+	/// InsertTree (0) / ReferenceTree (1) / DereferenceTree (2) on a non-tree column
+	TreeOpOnNonTree(u8, u8, u16),
+	/// Set (0) / Reference (1) / Dereference (2) on a multitree column
+	MapOpOnMulti(u8, u8, u16),
+	/// DereferenceTree on an append-only multitree column (selector over live roots)
+	DerefAppendOnly(u8, u16),
+	/// DereferenceTree of a root key that does not exist
+	DerefMissingRoot(u8, u16),
+	/// InsertTree with an unrepresentable node (more than 255 children)
+	OversizeInsert(u8, u16, u16),
 }
 
 #[derive(Clone, Debug, Serialize, Deserialize, PartialEq, Eq, Hash)]
